@@ -72,7 +72,7 @@ def match_close(s, i):
 
 
 _LIFE = re.compile(r"'[a-z_]\w*\b(?!')")
-_MODPATH = re.compile(r"(?<![\w:>])(?:[a-z_][a-z0-9_]*::)+(?=[A-Z{\[(]|<impl |dyn |impl )")
+_MODPATH = re.compile(r"(?<![\w:>])(?:[a-z_][a-z0-9_]*::)+(?=[A-Z{\[(]|<impl [^<>]*>::|dyn |impl )")
 
 
 def canon(t):
@@ -156,6 +156,7 @@ class Source:
         self.fn_defs = {}                       # fn name -> [(file, line, generics, argnames)]
         self.impls = {}                         # (file, line) -> Impl
         self.traits = {}                        # trait name -> {'assoc': [...], 'generics': [...]}
+        self.aliases = {}                       # type alias name -> target type text (non-generic aliases)
         for p in sorted(glob.glob(root + '/src/**/*.rs', recursive=True)):
             rel = os.path.relpath(p, root)
             txt = open(p, encoding='utf-8').read()
@@ -262,6 +263,8 @@ class Source:
             self.impls[(rel, line)] = im
         for m in re.finditer(r'(?m)^[ \t]*(?:pub(?:\([^)]*\))? )?(?:unsafe )?trait (\w+)\s*(<[^>{]*>)?', clean):
             self.traits[m.group(1)] = {'file': rel, 'line': clean.count('\n', 0, m.start()) + 1}
+        for m in re.finditer(r'(?m)^(?:pub(?:\([^)]*\))? )?type (\w+)\s*=\s*([^;]+);', clean):
+            self.aliases[m.group(1)] = canon(' '.join(m.group(2).split()))
         # fn definitions with generics
         for m in re.finditer(r'\bfn (\w+)\s*(<)?', clean):
             line = clean.count('\n', 0, m.start()) + 1
